@@ -35,6 +35,7 @@ func c20(c *Ctx) {
 	c20R8(c)
 	c20R9(c)
 	c20R10(c)
+	c20R11(c)
 }
 
 func c20R1(c *Ctx) {
